@@ -47,7 +47,7 @@ package atree
 //@   ensures[C10] err == nil ==> notified > old(notified)
 //@   modifies heap, ghost.sto, ghost.stored, ghost.touched, ghost.notified, alloc
 
-//@ func (m *OrderedMap) PopIterate(fn) (err)  serves C02 C06 C10
+//@ func (m *OrderedMap) PopIterate(fn) (err)  serves C02 C06 C09 C10
 //@   requires m.Storage != nil && m.root != nil && fn != nil
 //@   ensures[C10] err == nil ==> notified > old(notified)
 //@   # the emptied root, as handed to the parent notification: an empty leaf whose size is the prefix of its kind plus the empty element list
@@ -56,6 +56,10 @@ package atree
 //@   before OrderedMap.notifyParentIfNeeded: as(m.root, *MapDataSlab).header.size == ite(as(m.root, *MapDataSlab).inlined, inlinedMapDataSlabPrefixSize, mapRootDataSlabPrefixSize) + hkeyElementsPrefixSize &&
 //@        elsSize(as(m.root, *MapDataSlab).elements) == hkeyElementsPrefixSize
 //@   before OrderedMap.notifyParentIfNeeded: as(m.root, *MapDataSlab).extraData != nil ==> as(m.root, *MapDataSlab).extraData.Count == 0
+//@   # the emptied root keeps the identity and the inline status of the old root (a child that lived inline in its parent stays inline:
+//@   # otherwise the parent would keep the inlined copy while a standalone slab is stored as well)
+//@   before[C09 C10] OrderedMap.notifyParentIfNeeded: old(is(m.root, *MapDataSlab)) ==> as(m.root, *MapDataSlab).inlined == old(as(m.root, *MapDataSlab).inlined) &&
+//@        as(m.root, *MapDataSlab).header.slabID == old(as(m.root, *MapDataSlab).header.slabID)
 //@   modifies heap, ghost.sto, ghost.stored, ghost.touched, ghost.notified, alloc
 
 //@ func (m *MapDataSlab) Inlinable(maxInlineSize) (r)  serves C10
@@ -128,3 +132,17 @@ package atree
 //@        is(mcur(m, key), SlabIDStorable) && !vidEq(vid, SlabID(as(mcur(m, key), SlabIDStorable))) ==> !found && err == nil && mapParentUntouched()
 //@   ensures[C11] !found && err == nil ==> mapParentUntouched()
 //@   modifies heap, ghost.sto, ghost.stored, ghost.touched, ghost.notified, alloc
+
+//@ # ---- bulk pop of a map leaf: identity, inline status and extra data stay; the leaf reports the size of an empty leaf of its kind
+//@ functype MapPopIterationFunc(k, v)
+//@   modifies alloc
+
+//@ iface elements.PopIterate(storage, fn) (err)
+//@   modifies hkeyElements.*, singleElements.*, singleElement.*, inlineCollisionGroup.*, externalCollisionGroup.*, ghost.sto, ghost.stored, ghost.touched, alloc
+
+//@ func (m *MapDataSlab) PopIterate(storage, fn) (err)  serves C06 C09
+//@   requires m.elements != nil && fn != nil
+//@   ensures m.inlined == old(m.inlined) && m.extraData == old(m.extraData) && m.header.slabID == old(m.header.slabID) && m.next == old(m.next) && m.elements == old(m.elements)
+//@   ensures[C06] err == nil ==> m.header.firstKey == 0 &&
+//@        m.header.size == ite(m.inlined, inlinedMapDataSlabPrefixSize, ite(m.extraData != nil, mapRootDataSlabPrefixSize, mapDataSlabPrefixSize)) + hkeyElementsPrefixSize
+//@   modifies m.header, hkeyElements.*, singleElements.*, singleElement.*, inlineCollisionGroup.*, externalCollisionGroup.*, ghost.sto, ghost.stored, ghost.touched, alloc
